@@ -142,10 +142,10 @@ def chain_runs(args):
 
     def _alarm(*_a):
         raise _NoReturn()
-    # a chunk of runs takes about a second; a simulation that has not come back after 90 s is reported as
+    # a chunk of runs takes about a second; a simulation that has not come back after 240 s is reported as
     # "did not return" (a chain of N0 individuals has at most 2*N0 events)
     signal.signal(signal.SIGALRM, _alarm)
-    signal.alarm(90)
+    signal.alarm(240)
     try:
         out = _chain_rows(m, variant, times, n, state, form=seed)
     except _NoReturn:
@@ -243,7 +243,7 @@ def law_tests(rep, tier, seed):
         key = "law|chain|cell" + ("|own-generator" if variant == "own" else "" if variant == "scalar" else "|" + variant)
         what = {"instance": [n0, str(a), str(b), [str(x) for x in times]], "variant": variant}
         if any(r is None for r in rows):
-            rep.violation("solve_stochast did not return one row per requested time (or did not come back within 90 s) "
+            rep.violation("solve_stochast did not return one row per requested time (or did not come back within 240 s) "
                           "for the linear chain, route %s" % variant, what, key=key + "|no-return")
             rows = [r for r in rows if r is not None]
             if not rows:
